@@ -360,7 +360,49 @@ fn events_out(evs: Vec<verif::Event>) -> Value {
         .collect::<Vec<_>>())
 }
 
+fn run_sweep(sw: &Value) -> Value {
+    let empty = Vec::new();
+    let mut trees: Vec<_> = sw["trees"].as_array().unwrap_or(&empty).iter().map(parse_tree).collect();
+    trees.reverse();
+    let method = match sw["method"].as_str().unwrap_or("sampled") {
+        "full" => SolveMethod::Full,
+        "sampled" => SolveMethod::Sampled,
+        _ => SolveMethod::External,
+    };
+    let iters = sw["iters"].as_u64().unwrap_or(1000);
+    let threads = sw["threads"].as_u64().unwrap_or(1) as usize;
+    let params = match parse_params(&sw["params"]) {
+        Ok(p) => p,
+        Err(m) => return json!({"from_root": {"ok": true}, "ops": [{"params_panic": m}]}),
+    };
+    verif::reset_ids();
+    install_draws(&Value::Null);
+    let mut res: Vec<[u64; 4]> = Vec::with_capacity(trees.len());
+    while let Some(tree) = trees.pop() {
+        let r = catch_unwind(AssertUnwindSafe(|| {
+            let game: Game<u64, u64> = Game::from_root(tree).ok()?;
+            let (strats, _bounds) = game.solve(method, iters, 0.0, threads, params.clone()).ok()?;
+            let i = strats.get_info();
+            Some([i.player_utility(PlayerNum::One).to_bits(), i.player_regret(PlayerNum::One).to_bits(),
+                  i.player_regret(PlayerNum::Two).to_bits(), i.regret().to_bits()])
+        }));
+        res.push(match r {
+            Ok(Some(x)) => x,
+            _ => [0x7ff8000000000000u64; 4],
+        });
+    }
+    json!({"from_root": {"ok": true}, "ops": [{"ok": res.iter().map(|x| x.to_vec()).collect::<Vec<_>>()}]})
+}
+
 fn run_case(case: &Value) -> Value {
+    // "sweep": the parameter sweep of a user program -- build a game, solve it with the production samplers, evaluate the
+    // returned profile, drop everything, go on to the next game; nothing else is allocated in between.  Whatever one
+    // solve leaves behind in the process must not influence the next.
+    if let Some(sw) = case.get("sweep") {
+        if sw.is_object() {
+            return run_sweep(sw);
+        }
+    }
     ITER_STYLE.store(case["iter_style"].as_u64().unwrap_or(0) as usize, std::sync::atomic::Ordering::Relaxed);
     let tree = parse_tree(&case["tree"]);
     let built = catch_unwind(AssertUnwindSafe(|| Game::from_root(tree.clone())));
